@@ -4,7 +4,7 @@ import json, os, sys
 ROOT = os.path.dirname(os.path.dirname(os.path.abspath(__file__)))
 props = [json.loads(l) for l in open(os.path.join(ROOT, 'properties.jsonl'))]
 
-VS_NOTE = ("Trusted base: the vxform source rewrite (mechanical, type-directed; unsupported constructs abort the check), the vrt shim "
+VS_NOTE = ("Trusted base (the Joe scenarios additionally run the scheduler's happens-before race detector over instrumented field and map accesses): the vxform source rewrite (mechanical, type-directed; unsupported constructs abort the check), the vrt shim "
            "semantics of channels/select/close/sync/timers (Go spec), and the small-scope hypothesis for the stated bounds. Schedules are "
            "explored at synchronisation-operation granularity under sequential consistency; plain-memory data races and weak-memory "
            "effects are outside this engine. State-key pruning is validated by ./check <ID> --selftest (outcome sets with/without pruning).")
@@ -34,7 +34,7 @@ CHECKS = {
  "C19": sq("4/C19", "model_checking", "exhaustive enumeration of all operation sequences up to a depth on real Messages against a value model; repeated-Put histories on both replayers", "All sequences of <= 7 (8) operations {AppendData, AppendComment, set ID, Clone} x target over a family of up to three messages (clones of clones), each step compared with a value model built from copied slices; one message put 1..6 times through both replayers in both ID modes (incl. ring wrap-around): caller's message unchanged, copies independent, IDs consecutive and stable."),
  "C08": sq("4/C08", "model_checking", BFS, "All histories of valid/invalid Puts up to 4N+2 (thorough 6N+3) operations for capacities 2..4 (thorough ..5), both ID modes: the reachable concrete states of the ring buffer are enumerated completely (the state space closes: the frontier empties), and in each of them every Replay probe (every issued ID, never-issued, next-to-be-issued, unset x 4 topic sets x failing Send position) is compared with a list of the last N accepted events."),
  "C09": sq("4/C09", "model_checking", BFS, "All histories over {Put a, Put b, invalid Put, GC, advance 1 tick, advance TTL, 5 Puts, 9 Puts} up to depth 7 (thorough 10) with bounded clock advances and macro operations, TTL 2/3 ticks x 5 GCInterval settings x both ID modes, so the buffer grows 4-8-16-32, wraps and shrinks again; in every reachable state every probe is compared with a list model with per-entry expiry and every unexpired event must still be held."),
- "C18": sq("4/C18", "model_checking", BFS, "Same state spaces as C08 and C09; the invariant 'the set of *Message reachable from the replayer (reflective walk, slices to capacity) contains only the last N accepted / nothing expired right after a collection' is evaluated in every reachable state."),
+ "C18": sq("4/C18", "model_checking", BFS, "Same state spaces as C08 and C09; the invariant 'the set of *Message reachable from the replayer (reflective walk, slices to capacity) contains only the last N accepted / nothing expired right after a collection' is evaluated in every reachable state; plus a linear capacity sweep (N = 6..40, 64, 100) and, for what a reflective walk cannot see (a backing array resliced to a smaller capacity), a completely enumerated family of 252 (588) grow / partially expire / shrink / fully expire scripts whose expired messages must all be finalized by forced garbage collections after every collection."),
  "C03": vs("4/C03", "2-3 subscribers on disjoint/overlapping/default topics (one cancelled after noting which publishes had returned, or one failing), 2-3 publisher threads, fast and slow clients: ALL schedules at synchronisation granularity are executed on the real code; the oracle rebuilds Joe's serialisation order from the recording replayer and checks exactly-once, order, topic matching, completeness and Send-then-Flush on every execution."),
  "C04": vs("4/C04", "Real FiniteReplayer/ValidReplayer behind a recording wrapper, manual and automatic IDs, histories below/at/beyond capacity and across the ring's wrap point, every presentable ID (each buffered one, newest, evicted, never issued, next-to-be-issued, none), one or two resuming subscribers racing a publisher: ALL schedules; the Send sequence must equal [reference replay of the puts before the registration] ++ [matching puts after it], IDs identical live and replayed."),
  "C07": vs("4/C07", "Every multiset of up to 4 actors {Subscribe, Subscribe+cancel, Publish, 2xPublish, Shutdown, Shutdown(ctx)+cancel} with a Shutdown, Joe initialised before or by the racing calls, fast/slow clients, followed by late calls: ALL schedules; termination is decided by the scheduler's deadlock detector (no timeouts), return values by the oracle."),
